@@ -27,8 +27,9 @@ thread_local! {
     static CUR: RefCell<Option<(i32, DumpOpts, u32)>> = const { RefCell::new(None) };
     static DEGRADED: Cell<bool> = const { Cell::new(false) };
     static PENDING: RefCell<Option<Vec<u8>>> = const { RefCell::new(None) };
+    static FIRST: Cell<bool> = const { Cell::new(true) };
 }
-static ORACLE: RwLock<Option<(Oracle, bool)>> = RwLock::new(None);
+static ORACLE: RwLock<Option<(Oracle, bool, bool)>> = RwLock::new(None);
 static FOUND: Mutex<Vec<(String, String, Value)>> = Mutex::new(Vec::new());
 static JUDGED: AtomicU64 = AtomicU64::new(0);
 static JUDGED_ANY: AtomicU64 = AtomicU64::new(0);
@@ -46,17 +47,36 @@ pub fn before_dump() {
         return;
     }
     let Some(pid) = CUR.with(|c| c.borrow().as_ref().map(|(p, _, _)| *p)) else { return };
-    let exe = std::fs::read_link(format!("/proc/{pid}/exe")).map(|p| p.to_string_lossy().into_owned()).unwrap_or_default();
-    if !exe.ends_with("/puppet") {
+    // every puppet (whatever executable file it was started from) is a child of this process
+    let stat = std::fs::read_to_string(format!("/proc/{pid}/stat")).unwrap_or_default();
+    let ppid: i32 = stat.rsplit(')').next().and_then(|r| r.split_whitespace().nth(1)).and_then(|p| p.parse().ok()).unwrap_or(0);
+    if ppid != std::process::id() as i32 {
         return;
     }
-    for _ in 0..3000 {
+    // a dead (zombie) or stopped target cannot get any more parked than it is
+    let state = stat.rsplit(')').next().and_then(|r| r.trim_start().chars().next()).unwrap_or('?');
+    if matches!(state, 'Z' | 'X' | 'T' | 't') {
+        return;
+    }
+    for k in 0..3000 {
         match std::fs::read_to_string(format!("/proc/{pid}/syscall")) {
             Ok(s) if s.starts_with("0 ") => return,
-            Ok(_) => std::thread::sleep(std::time::Duration::from_millis(1)),
+            Ok(s) => {
+                if k == 2999 && std::env::var("MDV_DEBUG").is_ok() {
+                    eprintln!("DEBUG before_dump: pid {pid} host {} never parked: syscall={s:?} stat={stat:?}", HOST.read().unwrap().clone());
+                }
+                std::thread::sleep(std::time::Duration::from_millis(1))
+            }
             Err(_) => return,
         }
     }
+}
+
+/// Is the dump being judged the first one of its writer (with exactly the noted options)?  Oracles that
+/// also accept later dumps of a re-used / re-configured writer restrict themselves to their
+/// option-independent part then.
+pub fn is_first_dump() -> bool {
+    FIRST.with(|f| f.get())
 }
 
 pub fn current_opts_json() -> Value {
@@ -85,7 +105,7 @@ pub fn set_degraded(d: bool) -> bool {
 }
 
 fn judge_now(bytes: &[u8]) {
-    let Some((oracle, tolerant)) = *ORACLE.read().unwrap_or_else(|e| e.into_inner()) else { return };
+    let Some((oracle, tolerant, later_too)) = *ORACLE.read().unwrap_or_else(|e| e.into_inner()) else { return };
     if DEGRADED.with(|d| d.get()) && !tolerant {
         return;
     }
@@ -96,7 +116,8 @@ fn judge_now(bytes: &[u8]) {
                 *n += 1;
                 // oracles that do not look at the options (the fault-tolerant ones: structure, soft-error
                 // laws) judge every dump of a writer, also the later ones of a re-used / re-configured writer
-                if *n == 1 || tolerant {
+                FIRST.with(|f| f.set(*n == 1));
+                if *n == 1 || tolerant || later_too {
                     Some((*pid, o.clone()))
                 } else {
                     None
@@ -162,10 +183,14 @@ pub fn flush_pending() {
 
 /// Run the named host explorers with `oracle` installed; report what it finds under `rep`'s property.
 pub fn run_hosts(rep: &mut Report, tier: Tier, oracle: Oracle, fault_tolerant: bool, hosts: &[&str]) {
+    run_hosts_ext(rep, tier, oracle, fault_tolerant, false, hosts)
+}
+
+pub fn run_hosts_ext(rep: &mut Report, tier: Tier, oracle: Oracle, fault_tolerant: bool, later_dumps_too: bool, hosts: &[&str]) {
     if IN_CROSS.swap(true, Ordering::SeqCst) {
         return;
     }
-    *ORACLE.write().unwrap_or_else(|e| e.into_inner()) = Some((oracle, fault_tolerant));
+    *ORACLE.write().unwrap_or_else(|e| e.into_inner()) = Some((oracle, fault_tolerant, later_dumps_too));
     crate::watch::cross_mode(true);
     let mut per_host = serde_json::Map::new();
     for h in hosts {
@@ -194,10 +219,10 @@ pub fn run_hosts(rep: &mut Report, tier: Tier, oracle: Oracle, fault_tolerant: b
 }
 
 /// Replay of a cross finding: the host explorer is run again as a whole with the oracle installed.
-pub fn replay(case: &Value, rep: &mut Report, oracle: Oracle, fault_tolerant: bool) -> bool {
+pub fn replay(case: &Value, rep: &mut Report, oracle: Oracle, fault_tolerant: bool, later_dumps_too: bool) -> bool {
     let Some(h) = case.get("cross_host").and_then(|h| h.as_str()) else { return false };
     let h = h.to_string();
-    run_hosts(rep, Tier::Quick, oracle, fault_tolerant, &[h.as_str()]);
+    run_hosts_ext(rep, Tier::Quick, oracle, fault_tolerant, later_dumps_too, &[h.as_str()]);
     true
 }
 
@@ -455,6 +480,11 @@ pub fn c07(pid: i32, o: &DumpOpts, bytes: &[u8]) -> Vec<(String, String)> {
             }
             _ => {}
         }
+    }
+    if !is_first_dump() {
+        // a later dump of a re-used (possibly re-configured) writer: the noted options may be stale, only
+        // the fidelity of what IS listed is judged
+        return fails;
     }
     let mut avail: Vec<(u64, u64)> = d.memory.iter().map(|m| (m.start, m.loc.size as u64)).collect();
     for (a, l) in &o.app_memory {
